@@ -314,6 +314,9 @@ func judgeSend(id *identity, rq *request, r runResult, before, after map[string]
 		} else {
 			res.note(ph + ": refused although funds suffice: " + refusalClass(r))
 			cls = "refused-other"
+			if len(created)+len(changed)+len(removed) > 0 {
+				res.fail(ph, "refused/files-modified", fmt.Sprintf("%s: no transaction file was written, but files were modified: created %v changed %v removed %v", ctx, created, changed, removed))
+			}
 		}
 		res.classes = append(res.classes, lb+":"+cls)
 		return
@@ -434,6 +437,9 @@ func judgeSend(id *identity, rq *request, r runResult, before, after map[string]
 		}
 		return false
 	}
+	var missing []int
+	var missWhat []string
+	var paidSum uint64
 	for i, d := range c.Dests {
 		a := destAddr(id, d.Kind, d.Key)
 		scr, err := refaddr.DecodeAddress(a, id.Testnet)
@@ -441,8 +447,30 @@ func judgeSend(id *identity, rq *request, r runResult, before, after map[string]
 			ev.HarnessError("family address %q does not decode: %v", a, err)
 		}
 		if !take(scr, m.pays[i]) {
-			res.fail(ph, "destination-not-paid-exactly/"+strings.TrimPrefix(d.Kind, "own:"), fmt.Sprintf("%s: destination %d (%s) must receive %d at script %x; outputs are %s", ctx, i, a, m.pays[i], scr, outsString(tx)))
-			bad = true
+			missing = append(missing, i)
+			missWhat = append(missWhat, fmt.Sprintf("destination %d (%s) must receive %d at script %x", i, a, m.pays[i], scr))
+		} else {
+			paidSum += m.pays[i]
+		}
+	}
+	if len(missing) > 0 {
+		bad = true
+		// a silent subset: the transaction is self-consistent for the destinations it
+		// does pay (what is left after them and the fee is one change output, or nothing)
+		var others []reftx.Out
+		for _, o := range rest {
+			if !(o.Value == 0 && len(o.Script) > 0 && o.Script[0] == 0x6a) {
+				others = append(others, o)
+			}
+		}
+		left := sumIn - paidSum - m.fee
+		subset := sumIn >= paidSum+m.fee && ((left == 0 && len(others) == 0) || (len(others) == 1 && others[0].Value == left))
+		if subset && len(missing) < len(c.Dests) {
+			res.fail(ph, "destinations-silently-dropped", fmt.Sprintf("%s: %d of the %d requested destinations are paid, the others are dropped and their money goes to change: %s; outputs are %s", ctx, len(c.Dests)-len(missing), len(c.Dests), strings.Join(missWhat, "; "), outsString(tx)))
+		} else {
+			for j, i := range missing {
+				res.fail(ph, "destination-not-paid-exactly/"+strings.TrimPrefix(c.Dests[i].Kind, "own:"), fmt.Sprintf("%s: %s; outputs are %s", ctx, missWhat[j], outsString(tx)))
+			}
 		}
 	}
 	if c.Msg != "" {
@@ -544,7 +572,7 @@ func (c *Case) cfgLine() string {
 
 func refusalClass(r runResult) string {
 	l := lastLines(r.stderr+"\n"+r.stdout, 1)
-	for _, p := range []string{"You have", "incorrect version", "incorrect HRP", "NewAddrFromString", "Incorrect amount"} {
+	for _, p := range []string{"You have", "incorrect version", "incorrect HRP", "NewAddrFromString", "Incorrect amount", "Error in the batch file", "StringToSatoshis"} {
 		if strings.Contains(l, p) {
 			return p
 		}
@@ -987,6 +1015,9 @@ func execCase(base string, id *identity, c *Case) *result {
 	after := snapshot(dir)
 	rq := &request{c: c, files: fo.Files, listed: fo.Listed, phase: "send", label: "send"}
 	cmd := shellQuote(args)
+	if b, ok := extra["batch.txt"]; ok {
+		cmd += fmt.Sprintf(" [batch.txt = %q]", b)
+	}
 	tx, spent, sl := judgeSend(id, rq, r, before, after, cmd, res)
 	res.sample = map[string]interface{}{"case": c, "command": cmd, "exit": r.exit}
 	if tx != nil {
